@@ -57,6 +57,8 @@ pub struct Shared {
     pub flush_calls: u32,
     pub shutdown_at: Option<u64>,
     pub shutdown_calls: u32,
+    /// `poll_shutdown` never completes (peer does not acknowledge / transport close blocked)
+    pub shutdown_blocks: bool,
     pub write_after_shutdown: usize,
     pub dropped_at: Option<u64>,
     pub out_notify: Rc<Notify>,
@@ -66,6 +68,11 @@ pub struct Shared {
     pub delivered: usize,
     /// max over time of taken - delivered
     pub max_inflight: i64,
+    /// value of `max_inflight` each time a handler returned
+    pub inflight_marks: Vec<i64>,
+    /// wire bytes per delivered body byte (chunked framing overhead), as a ratio num/den
+    pub body_scale: (u64, u64),
+    pub delivered_body_raw: u64,
     /// (virtual ms, from, to) of every segment the peer released
     pub send_log: Vec<(u64, usize, usize)>,
     // ---- closed-loop adversarial write side (see `WSched`)
@@ -125,12 +132,16 @@ pub fn pair() -> (SimIo, Peer) {
         flush_calls: 0,
         shutdown_at: None,
         shutdown_calls: 0,
+        shutdown_blocks: false,
         write_after_shutdown: 0,
         dropped_at: None,
         out_notify: Rc::new(Notify::new()),
         keep_taken_log: false,
         delivered: 0,
         max_inflight: 0,
+        inflight_marks: Vec::new(),
+        body_scale: (1, 1),
+        delivered_body_raw: 0,
         send_log: Vec::new(),
         need_credit: Rc::new(Notify::new()),
         need_flush: Rc::new(Notify::new()),
@@ -282,13 +293,18 @@ impl AsyncWrite for SimIo {
         Poll::Ready(Ok(()))
     }
 
-    fn poll_shutdown(self: Pin<&mut Self>, _cx: &mut Context<'_>) -> Poll<io::Result<()>> {
+    fn poll_shutdown(self: Pin<&mut Self>, cx: &mut Context<'_>) -> Poll<io::Result<()>> {
         let mut s = self.0.borrow_mut();
         s.shutdown_calls += 1;
         if s.shutdown_at.is_none() {
             let now = s.now_ms();
             s.shutdown_at = Some(now);
             s.out_notify.notify_waiters();
+        }
+        if s.shutdown_blocks {
+            // like a real transport: keeps the waker, is simply never ready
+            s.flush_waker = Some(cx.waker().clone());
+            return Poll::Pending;
         }
         Poll::Ready(Ok(()))
     }
@@ -335,8 +351,22 @@ impl Peer {
             w.wake();
         }
     }
+    /// `n` head bytes were consumed by dispatching a request
     pub fn delivered(&self, n: usize) {
         self.0.borrow_mut().delivered += n;
+    }
+    /// `n` body bytes were handed to a handler (scaled to wire bytes by `body_scale`)
+    pub fn delivered_body(&self, n: usize) {
+        let mut s = self.0.borrow_mut();
+        let before = s.delivered_body_raw * s.body_scale.0 / s.body_scale.1;
+        s.delivered_body_raw += n as u64;
+        let after = s.delivered_body_raw * s.body_scale.0 / s.body_scale.1;
+        s.delivered += (after - before) as usize;
+    }
+    pub fn mark_inflight(&self) {
+        let mut s = self.0.borrow_mut();
+        let m = s.max_inflight;
+        s.inflight_marks.push(m);
     }
     pub fn script_done(&self) {
         self.0.borrow_mut().script_has_more = false;
